@@ -6,35 +6,35 @@ Require Import Raft.Quorum Raft.QuorumProofs Raft.RaftModel Raft.RaftSys Raft.Ra
 Import ListNotations.
 
 Section Main.
-  Variables c0 c1 : list nat.
-  Hypothesis Hcfg : c0 <> [] \/ c1 <> [].
+  Variable F : list (list nat * list nat).
+  Hypothesis HF : inter_family F.
 
-  Lemma step_win : forall s id,
-    Inv c0 c1 s -> n_role (nodes s id) = Candidate -> tally c0 c1 (nodes s id) = VoteWon ->
-    Inv c0 c1 (set_leader_log (set_node s id (become_leader id (nodes s id)))
+  Lemma step_win : forall s id cfg,
+    Inv F s -> In cfg F -> n_role (nodes s id) = Candidate -> tally (fst cfg) (snd cfg) (nodes s id) = VoteWon ->
+    Inv F (set_leader_log (set_node s id (become_leader id (nodes s id)))
                               id (n_term (nodes s id)) (n_log (become_leader id (nodes s id)))).
   Proof.
-    intros s id I Hr Hw.
-    apply (inv_leader_log c0 c1 Hcfg s id (become_leader id (nodes s id)) 0 I); try reflexivity.
+    intros s id cfg I Hin Hr Hw.
+    apply (inv_leader_log F HF s id (become_leader id (nodes s id)) 0 I); try reflexivity.
     - intros x. cbn [become_leader n_match]. rewrite app_length. destruct (x =? id); cbn [length]; lia.
     - right. split; [exact Hr|]. unfold tally in Hw.
-      apply (proj1 (joint_vote_result_spec c0 c1 _)). exact Hw.
+      apply (Qr_intro F cfg _ Hin). apply (proj1 (joint_vote_result_spec (fst cfg) (snd cfg) _)). exact Hw.
   Qed.
 
   Lemma step_propose : forall s id p,
-    Inv c0 c1 s -> n_role (nodes s id) = Leader ->
-    Inv c0 c1 (set_leader_log (set_node s id (propose p (nodes s id)))
+    Inv F s -> n_role (nodes s id) = Leader ->
+    Inv F (set_leader_log (set_node s id (propose p (nodes s id)))
                               id (n_term (nodes s id)) (n_log (propose p (nodes s id)))).
   Proof.
     intros s id p I Hr. unfold propose. rewrite Hr.
-    apply (inv_leader_log c0 c1 Hcfg s id _ p I); try reflexivity; try assumption.
-    - intros x. cbn [set_log n_match]. pose proof (hK5 _ _ _ I id x Hr) as H5. unfold nd in H5.
+    apply (inv_leader_log F HF s id _ p I); try reflexivity; try assumption.
+    - intros x. cbn [set_log n_match]. pose proof (hK5 _ _ I id x Hr) as H5. unfold nd in H5.
       destruct (Nat.eqb_spec x id) as [->|Hx]; [|exact H5].
-      pose proof (hK11 _ _ _ I id Hr) as H11. unfold nd in H11. rewrite app_length. lia.
+      pose proof (hK11 _ _ I id Hr) as H11. unfold nd in H11. rewrite app_length. lia.
     - left. exact Hr.
   Qed.
 
-  Lemma inv_init : Inv c0 c1 m_init.
+  Lemma inv_init : Inv F m_init.
   Proof.
     constructor; unfold m_init;
       try (intro; intros; cbn in *; try discriminate; try contradiction; try reflexivity; try lia; fail).
@@ -46,7 +46,7 @@ Section Main.
     - intros x t k [[H1 H2] _] _. cbn in H2. lia.
   Qed.
 
-  Theorem mstep_inv : forall s s', Inv c0 c1 s -> mstep c0 c1 s s' -> Inv c0 c1 s'.
+  Theorem mstep_inv : forall s s', Inv F s -> mstep F s s' -> Inv F s'.
   Proof.
     intros s s' I H. destruct H.
     - apply step_bump; assumption.
@@ -55,11 +55,12 @@ Section Main.
     - apply step_campaign; assumption.
     - apply step_grant; assumption.
     - apply step_record; assumption.
-    - apply step_win; assumption.
+    - eapply step_win; eassumption.
     - apply step_propose; assumption.
     - apply step_ack; assumption.
     - apply step_selfack; assumption.
-    - apply step_commit; assumption.
+    - apply step_lower; assumption.
+    - eapply step_commit; eassumption.
     - apply step_append; assumption.
     - apply step_heartbeat; assumption.
     - apply step_snapshot; assumption.
@@ -67,7 +68,7 @@ Section Main.
     - apply step_junk; assumption.
   Qed.
 
-  Theorem mreachable_inv : forall s, mreachable c0 c1 s -> Inv c0 c1 s.
+  Theorem mreachable_inv : forall s, mreachable F s -> Inv F s.
   Proof.
     intros s H. induction H as [|s s' _ IH Hs]; [apply inv_init|eapply mstep_inv; eassumption].
   Qed.
